@@ -115,6 +115,8 @@ def run(ck, tier):
             for site in ("tempfile", "encode", "sync", "seek", "decode", "pullread"):
                 if not any(e["site"] == site and e["injected"] and e["reported"] for e in fevs):
                     raise vlib.Infra("fault site %s never produced a reported failure: the injection is ineffective" % site)
+            if not any(e["site"] == "clearremove" and e["clearinjected"] and e["clearerr"] for e in fevs):
+                raise vlib.Infra("no Clear failed half way: the residue-after-failed-Clear case was not exercised")
         ck.nontrivial = len(nontriv)
     finally:
         shutil.rmtree(work, ignore_errors=True)
